@@ -325,6 +325,66 @@ image is not a skipped default image (encoder.rs:872-875), and the frame control
 def emitFctl (fc : FrameControl) (dataChunks : Nat) : Chunk × FrameControl :=
   ((Framing.fcTL, encodeFctl fc), { fc with seq := (fc.seq + 1 + dataChunks) % 4294967296 })
 
+/-! ## The stream writer's copy of the frame control
+
+`StreamWriter::new` (encoder.rs, `impl StreamWriter`) starts an image at once — the `fcTL` it writes
+is the *writer's* frame control — and keeps a copy of that frame control in `StreamWriter::fctl`.  Its
+seven setters (same bodies as the `Writer`'s, bounds against the canvas) change the copy only.  When
+the first byte of the next image arrives, `new_frame` hands the copy to `ChunkWriter::set_fctl`, which
+replaces the writer's frame control by it **except for the sequence number**, and then writes the
+`fcTL`.  So a setter called during a session shows in the next frame of that session; the copy is
+dropped with the stream writer. -/
+
+/-- `ChunkWriter::set_fctl`: every field of the copy, the writer's own sequence number -/
+def setFctl (writerFc copy : FrameControl) : FrameControl := { copy with seq := writerFc.seq }
+
+/-- what happens to the two frame controls, in the order of the calls -/
+inductive FcEvent
+  | writerSet (op : FcOp)      -- a setter of `Writer`, between images
+  | streamSet (op : FcOp)      -- a setter of `StreamWriter`, any time during a session
+  | image (emit : Bool)        -- `Writer::write_image_data` (`emit = false`: the skipped default image)
+  | openStream (emit : Bool)   -- `StreamWriter::new`: copy taken, first image of the session started
+  | nextFrame                  -- `new_frame`: `set_fctl` with the copy, next image started
+  | closeStream                -- the stream writer is finished / dropped
+deriving DecidableEq, Repr
+
+/-- writer's frame control, the stream writer's copy while a session is open -/
+structure FcState where
+  writerFc : FrameControl
+  copy : Option FrameControl := none
+deriving DecidableEq, Repr
+
+/-- One event: new state, the result of a setter call (`none` for the other events), the `fcTL` emitted
+(sequence numbers are not tracked here: they depend on how many `fdAT` chunks the data needs).
+A stream setter without a session, `nextFrame` without a session: no effect (the harness never does
+that; the API cannot express it). -/
+def fcStep (cw ch : Nat) (s : FcState) : FcEvent → FcState × Option (Except EncErr Unit) × Option FrameControl
+  | .writerSet op =>
+    match applyOp cw ch s.writerFc op with
+    | .ok fc => ({ s with writerFc := fc }, some (.ok ()), none)
+    | .error e => (s, some (.error e), none)
+  | .streamSet op =>
+    match s.copy with
+    | none => (s, some (.error .notAnimated), none)
+    | some c =>
+      match applyOp cw ch c op with
+      | .ok c' => ({ s with copy := some c' }, some (.ok ()), none)
+      | .error e => (s, some (.error e), none)
+  | .image emit => (s, none, if emit then some s.writerFc else none)
+  | .openStream emit => ({ s with copy := some s.writerFc }, none, if emit then some s.writerFc else none)
+  | .nextFrame =>
+    match s.copy with
+    | none => (s, none, none)
+    | some c => ({ s with writerFc := setFctl s.writerFc c }, none, some (setFctl s.writerFc c))
+  | .closeStream => ({ s with copy := none }, none, none)
+
+def fcRun (cw ch : Nat) : FcState → List FcEvent → List (Except EncErr Unit) → List FrameControl →
+    FcState × List (Except EncErr Unit) × List FrameControl
+  | s, [], rs, es => (s, rs.reverse, es.reverse)
+  | s, ev :: evs, rs, es =>
+    let (s', r, e) := fcStep cw ch s ev
+    fcRun cw ch s' evs (match r with | some r => r :: rs | none => rs) (match e with | some e => e :: es | none => es)
+
 /-! ## The decoder side, chunk by chunk, and the documented accessors -/
 
 /-- **THE SWITCH for the zero-length-chunk repair.**  `false` = today's `StreamingDecoder`: a chunk
